@@ -24,6 +24,8 @@ func init() {
 			{ID: "C13.R1", Floor: 1, Run: c13r1, Text: "no order-dependent map iteration: a range over a map is allowed only if the loop body is order-insensitive by form (only delete, commutative accumulation into locals, keyed writes into another map, or collecting keys that are sorted before use)"},
 			{ID: "C13.R2", Floor: 1, Run: c13r2, Text: "no nondeterminism sources: go statements, channel operations, select, runtime.SetFinalizer, time, math/rand, crypto/rand, os, sync.Pool, hash/maphash callees (resolved callees, not names)"},
 			{ID: "C13.R3", Floor: 1, Run: c13r3, Text: "no address-derived values: no conversion unsafe.Pointer → uintptr, no pointer/map/chan/func value passed to a fmt formatting function"},
+			{ID: "C13.R4", Floor: 1, Run: c16r7, Text: "layout extension covers every table of every node, active or not (= C16.R7): a skipped table reads past its layout array, which makes results depend on heap contents"},
+			{ID: "C13.R5", Floor: 2, Run: c17r4, Text: "loaded state is copied, not adopted (= C17.R4): two worlds loaded from one dump share no storage"},
 			{ID: "C13.FX", Floor: 1, Run: c13fixture, Text: "fixture control: on checker/testdata/fixture the three rules report exactly the functions named bad* for them and none named ok*"},
 		},
 	})
